@@ -17,13 +17,13 @@ TRACKED = ("StopIteration",) + IODATA_ERRORS + ("Other",)
 
 # externals assumed total (never raising) on the argument types they get here
 TOTAL_EXTERNALS = {
-    "os.path.basename", "fnmatch.fnmatch", "builtins.hasattr", "builtins.any", "builtins.all",
+    "os.path.basename", "os.path.normcase", "os.path.splitext", "fnmatch.fnmatch", "fnmatch.fnmatchcase", "builtins.hasattr", "builtins.any", "builtins.all",
     "builtins.isinstance", "builtins.len", "builtins.iter", "builtins.getattr3", "warnings.warn",
     "warnings.catch_warnings", "builtins.str", "builtins.repr", "builtins.id", "builtins.type",
     "builtins.callable", "builtins.sorted", "builtins.list", "builtins.dict", "builtins.tuple",
     "builtins.set", "builtins.print0", "builtins.super",
 }
-TOTAL_METHODS = {"values", "items", "keys", "get", "format", "join", "startswith", "endswith", "strip", "lower", "upper", "append", "close", "clear", "copy", "rstrip", "lstrip", "title"}
+TOTAL_METHODS = {"values", "items", "keys", "get", "format", "join", "startswith", "endswith", "strip", "lower", "upper", "append", "close", "clear", "copy", "rstrip", "lstrip", "title", "search", "match", "fullmatch"}
 
 
 def src_of_type(t):
